@@ -181,6 +181,19 @@ def union_rules(facts):
             else:
                 out.append(ob("cpc.fold", key, fn["pat"], "violated", "reduce_k folds the bit matrix in place / without or_matrix_into_matrix (direct |=: %d, resize: %d): a fold that is exact only for halving loses the rows at or above 2 * new_k" % (len(direct), len(resize)), fn["qname"]))
         if fn["name"] == "internal_update":
+            # the source's rows are folded with the SOURCE's lg_k: the lg_k argument of or_window_into_matrix / or_matrix_into_matrix
+            # is the incoming sketch's get_lg_k() (the union's own lg_k is smaller or equal and would drop the upper rows)
+            import triggers
+            env = triggers.flat_env(fn)
+            src = fn["params"][0]["d"] if fn.get("params") else None
+            for cname, argi in (("or_window_into_matrix", 2), ("or_matrix_into_matrix", 1)):
+                for j, c in enumerate(x for x in _calls(fn["body"]) if x.get("cname") == cname and len(x.get("args", [])) > argi):
+                    ids, consts = [], []
+                    triggers.idc(c["args"][argi], env, ids, consts)
+                    key = "cpc_union_alloc::internal_update:%s#%d:source-lg_k" % (cname, j)
+                    ok = "get_lg_k" in ids and "param#0" in [str(i) for i in ids]
+                    out.append(ob("cpc.fold", key, c.get("loc", fn["pat"]), "discharged" if ok else "violated",
+                                  "rows of the source are folded with the source's lg_k" if ok else "`%s` folds the source's rows with `%s`, which is not the incoming sketch's lg_k: with a source of higher precision only the first 2^lg_k rows are OR'ed in, the coupons of the upper rows are lost" % (txt(c)[:80], txt(c["args"][argi])), fn["qname"]))
             st = stmts_of(fn["body"])
             from astu import single_assignment_locals
             sa = single_assignment_locals(fn)
